@@ -56,6 +56,13 @@ Qed.
 Lemma elems_lflat : forall rid i g s, stream_elems (lflat rid i g s) = flat_map g (stream_elems s).
 Proof. intros; apply elems_lflat_go. Qed.
 
+Lemma elems_lidx_go : forall rid i f cs (pos : Z), map snd (lidx_go rid i f pos cs) = enum_from (f i) pos (map snd cs).
+Proof.
+  induction cs as [|[evs x] cs IH]; intros pos; simpl; auto. rewrite IH; reflexivity.
+Qed.
+Lemma elems_lidx : forall rid i f s, stream_elems (lidx rid i f s) = enum_from (f i) 0 (stream_elems s).
+Proof. intros; apply elems_lidx_go. Qed.
+
 Lemma elems_lpart : forall rid i h s, stream_elems (lpart rid i h s) = h (stream_elems s).
 Proof.
   intros; unfold stream_elems, lpart. destruct (h (map snd (cells s))) as [|y ys]; simpl; auto.
